@@ -557,6 +557,108 @@ where
     }
 }
 
+// ------------------------------------------------------------------------------------------
+/// single-channel luma has its own macro invocations for mix, lighten, clamp and the arithmetic operators: the same
+/// variant-agreement and semantic checks on its one component
+fn luma_suite<T, S>(mm: &mut Monitor, ml: &mut Monitor, mc: &mut Monitor, ma: &mut Monitor, ctx: &Ctx, name: &str)
+where
+    T: Fl + palette::stimulus::Stimulus + palette::num::Real + palette::num::Zero + palette::num::One + palette::num::Arithmetics + palette::num::Clamp + palette::num::ClampAssign + palette::num::MinMax + palette::num::PartialCmp + palette::bool_mask::HasBoolMask<Mask = bool> + AddAssign + SubAssign + MulAssign + DivAssign,
+    S: 'static,
+    palette::luma::Luma<S, T>: Clone,
+{
+    use palette::luma::Luma;
+    let inst = format!("{}/{}", name, T::NAME);
+    let mut rng = ctx.rng(&format!("luma{}", inst), 0);
+    let l = |x: f64| -> Luma<S, T> { Luma::new(T::f(x)) };
+    let v = |c: &Luma<S, T>| -> f64 { c.luma.d() };
+    let bits = |x: f64| x.to_bits();
+    for q in 0..ctx.n(3000, 300_000) {
+        let a0 = match q % 6 { 0 => 0.0, 1 => 1.0, _ => rng.unit() };
+        let b0 = rng.unit();
+        let f = if q % 3 == 0 { FACTORS[(q / 3) as usize % FACTORS.len()] } else { rng.range(-1.0, 2.0) };
+        let (ca, cb, ft) = (l(a0), l(b0), T::f(f));
+        let (a, b) = (v(&ca), v(&cb));
+        let tol = 8.0 * T::EPS;
+        // ---- mix
+        {
+            let r = v(&ca.clone().mix(cb.clone(), ft));
+            let fc = T::f(f.max(0.0).min(1.0));
+            let want_end = v(&ca.clone().mix(cb.clone(), fc));
+            let mut x = ca.clone();
+            x.mix_assign(cb.clone(), ft);
+            let wa = Alpha { color: ca.clone(), alpha: T::f(0.25) }.mix(Alpha { color: cb.clone(), alpha: T::f(0.75) }, ft);
+            mm.evals(4);
+            let lerp = a + fc.d() * (b - a);
+            if bits(r) != bits(want_end) || bits(v(&x)) != bits(r) || bits(v(&wa.color)) != bits(r) || !((r - lerp).abs() <= tol) || !(r >= a.min(b) - tol && r <= a.max(b) + tol) || !((wa.alpha.d() - (0.25 + fc.d() * 0.5)).abs() <= tol) {
+                mm.violate(&inst, "luma_mix", json!({"a": a, "b": b, "factor": f}), json!({"by_value": r, "assign": v(&x), "alpha_form": v(&wa.color), "alpha": wa.alpha.d()}), json!({"lerp": lerp}), "");
+            }
+        }
+        // ---- lighten / darken, relative and fixed
+        {
+            let r = v(&ca.clone().lighten(ft));
+            let rf = v(&ca.clone().lighten_fixed(ft));
+            let mut x = ca.clone();
+            x.lighten_assign(ft);
+            let mut xf = ca.clone();
+            xf.lighten_fixed_assign(ft);
+            let nft = T::f(-f);
+            let dk = v(&ca.clone().darken(nft));
+            let dkf = v(&ca.clone().darken_fixed(nft));
+            let mut sl: Vec<Luma<S, T>> = vec![ca.clone(); 3];
+            sl[..].lighten_assign(ft);
+            let mut slf: Vec<Luma<S, T>> = vec![ca.clone(); 3];
+            slf[..].lighten_fixed_assign(ft);
+            let wa = Alpha { color: ca.clone(), alpha: T::f(0.625) }.lighten(ft);
+            ml.evals(8);
+            let room = if f >= 0.0 { 1.0 - a } else { a };
+            let want = (a + room * f).max(0.0).min(1.0);
+            let wantf = (a + f).max(0.0).min(1.0);
+            let same_all = bits(v(&x)) == bits(r) && bits(v(&xf)) == bits(rf) && bits(dk) == bits(r) && bits(dkf) == bits(rf) && sl.iter().all(|c| bits(v(c)) == bits(r)) && slf.iter().all(|c| bits(v(c)) == bits(rf)) && bits(v(&wa.color)) == bits(r) && wa.alpha.d() == 0.625;
+            if !same_all || !((r - want).abs() <= tol) || !((rf - wantf).abs() <= tol) || !(r >= 0.0 && r <= 1.0 && rf >= 0.0 && rf <= 1.0) {
+                ml.violate(&inst, "luma_lighten", json!({"luma": a, "factor": f}), json!({"relative": r, "fixed": rf, "assign": v(&x), "fixed_assign": v(&xf), "darken": dk, "darken_fixed": dkf, "alpha_form": v(&wa.color)}), json!({"relative": want, "fixed": wantf}), "");
+            }
+        }
+        // ---- clamp
+        {
+            let out = match q % 5 { 0 => -rng.range(0.5, 3.0), 1 => -1e-6, 2 => rng.unit(), 3 => 1.0 + 1e-6, _ => 1.0 + rng.range(0.5, 3.0) };
+            let co = l(out);
+            let r = v(&co.clone().clamp());
+            let mut x = co.clone();
+            x.clamp_assign();
+            let mut sl: Vec<Luma<S, T>> = vec![co.clone(); 3];
+            sl[..].clamp_assign();
+            let wa = Alpha { color: co.clone(), alpha: T::f(1.5) }.clamp();
+            mc.evals(4);
+            let want = T::f(out).d().max(0.0).min(1.0);
+            if bits(r) != bits(want) || bits(v(&x)) != bits(r) || !sl.iter().all(|c| bits(v(c)) == bits(r)) || bits(v(&wa.color)) != bits(r) || wa.alpha.d() != 1.0 {
+                mc.violate(&inst, "luma_clamp", json!({"luma": out}), json!({"by_value": r, "assign": v(&x), "alpha_form": v(&wa.color), "alpha": wa.alpha.d()}), json!(want), "");
+            }
+        }
+        // ---- arithmetic
+        {
+            let (ta, tb) = (T::f(a0), T::f(b0.max(0.125)));
+            let cb = l(b0.max(0.125));
+            let got = [v(&(ca.clone() + cb.clone())), v(&(ca.clone() - cb.clone())), v(&(ca.clone() * cb.clone())), v(&(ca.clone() / cb.clone())), v(&(ca.clone() + tb)), v(&(ca.clone() - tb)), v(&(ca.clone() * tb)), v(&(ca.clone() / tb))];
+            let want = [(ta + tb).d(), (ta - tb).d(), (ta * tb).d(), (ta / tb).d(), (ta + tb).d(), (ta - tb).d(), (ta * tb).d(), (ta / tb).d()];
+            let mut x = ca.clone();
+            x += cb.clone();
+            x -= tb;
+            x *= cb.clone();
+            x /= tb;
+            let wantx = (((ta + tb) - tb) * tb / tb).d();
+            ma.evals(9);
+            if got.map(bits) != want.map(bits) || bits(v(&x)) != bits(wantx) {
+                ma.violate(&inst, "luma_arithmetic", json!({"a": a, "b": tb.d()}), json!({"ops": got.to_vec(), "assign_chain": v(&x)}), json!({"ops": want.to_vec(), "assign_chain": wantx}), "");
+            }
+        }
+        if q < 32 {
+            for m in [&mut *mm, &mut *ml, &mut *mc, &mut *ma] {
+                m.cell(pvmon::rng::mix(pvmon::rng::hash_str(&inst), q));
+            }
+        }
+    }
+}
+
 macro_rules! desc {
     ($name:expr, $r:expr, $hue:expr, $light:expr, $sat:expr) => {
         Desc { name: $name, ranges: $r, hue: $hue, light: $light, sat: $sat, hwb: false }
@@ -720,6 +822,12 @@ fn main() {
     }
     if only("clamp_variants") {
         for_floats!(all_clamp,);
+    }
+    if !ctx.replaying() && ctx.enabled("mix") && ctx.enabled("lighten_darken") && ctx.enabled("clamp_variants") && ctx.enabled("component_arithmetic") {
+        luma_suite::<f32, St>(&mut mm, &mut ml, &mut mc, &mut ma, &ctx, "Luma<Srgb>");
+        luma_suite::<f64, St>(&mut mm, &mut ml, &mut mc, &mut ma, &ctx, "Luma<Srgb>");
+        luma_suite::<f32, palette::encoding::Linear<palette::white_point::D50>>(&mut mm, &mut ml, &mut mc, &mut ma, &ctx, "Luma<Linear<D50>>");
+        luma_suite::<f64, palette::encoding::Linear<palette::white_point::D50>>(&mut mm, &mut ml, &mut mc, &mut ma, &ctx, "Luma<Linear<D50>>");
     }
     mm.sample(|| json!({"type": "Hsl<Srgb,f64>", "a": [350.0, 0.5, 0.5], "b": [10.0, 0.5, 0.5], "factor": 0.5, "mixed": fvec(&arr(&Hsl::<St, f64>::new(350.0, 0.5, 0.5).mix(Hsl::new(10.0, 0.5, 0.5), 0.5)))}));
     ml.sample(|| json!({"type": "Hsl<Srgb,f64>", "color": [120.0, 0.5, 0.4], "lighten(0.5)": fvec(&arr(&Hsl::<St, f64>::new(120.0, 0.5, 0.4).lighten(0.5))), "darken_fixed(0.1)": fvec(&arr(&Hsl::<St, f64>::new(120.0, 0.5, 0.4).darken_fixed(0.1)))}));
